@@ -179,3 +179,12 @@ Definition w_reflater :=
 Lemma w_reflater_refutes : refutes (fst w_reflater) (snd w_reflater) known_C04_reference_added_later
   /\ migration_error (fst w_reflater) (snd w_reflater) = Some "M10e referenced column does not exist (3734)".
 Proof. vm_compute. repeat split; reflexivity. Qed.
+
+(* C19 across RenameTable: the drop path derives the name from the new table name, MySQL kept the old one *)
+Definition w_rename_drop :=
+  (fst w_rename, [RenameTable "t" "t2"; RemoveConstraint "t2" (CUnique None ["a"])]).
+Lemma w_rename_drop_fails :
+  judged (fst w_rename_drop) (snd w_rename_drop) = true /\
+  gen_plan (fst w_rename_drop) (snd w_rename_drop) = Ok [[SRenameTable "t" "t2"]; [SAlterDropIndex "t2" "uq_t2__a"]] /\
+  migration_error (fst w_rename_drop) (snd w_rename_drop) = Some "M5a cannot drop index: it does not exist (1091)".
+Proof. vm_compute. repeat split; reflexivity. Qed.
